@@ -872,3 +872,66 @@ m('c20-prolongate-single', ['C20'],
 m('c20-prolongate-j', ['C20'],
   (M, "        vec_fine[j] = vec_coarse[i]", "        vec_fine[j] = vec_coarse[j]"),
   rule='R-hier')
+
+# ---- C09 ------------------------------------------------------------------
+m('c09-weights-swapped', ['C09'],
+  (EE, "        return sqrt(elem.h_t) * elem.h_x * res_l2, elem.h_t * res_l2",
+   "        return elem.h_t * res_l2, sqrt(elem.h_t) * elem.h_x * res_l2"),
+  rule='R-weights')
+m('c09-weights-sqrt-hx', ['C09'],
+  (EE, "        return sqrt(elem.h_t) * elem.h_x * res_l2, elem.h_t * res_l2",
+   "        return sqrt(elem.h_x) * elem.h_t * res_l2, elem.h_t * res_l2"),
+  rule='R-weights')
+m('c09-time-patch-union', ['C09'],
+  (EE, """            t_a = max(time_nbr.time_interval[0], elem.time_interval[0])
+            t_b = min(time_nbr.time_interval[1], elem.time_interval[1])""",
+   """            t_a = min(time_nbr.time_interval[0], elem.time_interval[0])
+            t_b = max(time_nbr.time_interval[1], elem.time_interval[1])"""),
+  rule='R-patch')
+m('c09-left-right-swapped', ['C09'],
+  (EE, """            elif elem.vertices[0].x < time_nbr.vertices[0].x:
+                elem_left = elem
+                elem_right = time_nbr""", """            elif elem.vertices[0].x < time_nbr.vertices[0].x:
+                elem_left = time_nbr
+                elem_right = elem"""), rule='R-patch')
+m('c09-seam-branch-swapped', ['C09'],
+  (EE, """                    0].x == 0:
+                elem_left = time_nbr
+                elem_right = elem
+            elif elem.vertices[2].x""", """                    0].x == 0:
+                elem_left = elem
+                elem_right = time_nbr
+            elif elem.vertices[2].x"""), rule='R-patch')
+m('c09-sobolev-time-intersection', ['C09'],
+  (EE, """            t_a = min(space_nbr.time_interval[0], elem.time_interval[0])
+            t_b = max(space_nbr.time_interval[1], elem.time_interval[1])""",
+   """            t_a = max(space_nbr.time_interval[0], elem.time_interval[0])
+            t_b = min(space_nbr.time_interval[1], elem.time_interval[1])"""),
+  rule='R-patch')
+m('c09-accumulate-le', ['C09'],
+  (EE, """            for elem_nbr, val_nbr in sobolev_space[i][1]:
+                if elem.glob_idx < elem_nbr:""", """            for elem_nbr, val_nbr in sobolev_space[i][1]:
+                if elem.glob_idx <= elem_nbr:"""), rule='R-accumulate')
+m('c09-producer-ge', ['C09'],
+  (EE, "            if nbrs_symmetry and elem.glob_idx > time_nbr.glob_idx: continue",
+   "            if nbrs_symmetry and elem.glob_idx >= time_nbr.glob_idx: continue"),
+  rule='R-accumulate')
+m('c09-columns-swapped', ['C09'],
+  (EE, "            sobolev[i, 0] += sobolev_time[i][0]", "            sobolev[i, 1] += sobolev_time[i][0]"),
+  rule='R-accumulate')
+m('c09-imap-unordered', ['C09'],
+  (EE, "                    p.map(MP_estim_sobolev_time, range(N), N // (cpu * 8) + 1))",
+   "                    p.imap_unordered(MP_estim_sobolev_time, range(N), N // (cpu * 8) + 1))"),
+  rule='R-ordered')
+m('c09-inner-interval', ['C09'],
+  (EE, """                    residual_t, elem_left.space_interval[0],
+                    elem_right.space_interval[1], gamma)""",
+   """                    residual_t, elem_left.space_interval[0],
+                    elem_left.space_interval[1], gamma)"""), rule='R-patch')
+m('c09-outer-factor', ['C09'],
+  (EE, "        approx = h_t * np.dot(val, self.gauss.weights)",
+   "        approx = np.dot(val, self.gauss.weights)"), rule='R-patch')
+m('c09-nbr-axis', ['C09'],
+  (EE, "        for edge in elem.edges_axis(0):\n            time_neighbours",
+   "        for edge in elem.edges_axis(1):\n            time_neighbours"),
+  rule='R-patch')
